@@ -253,6 +253,8 @@ class Bundle:
             raise RuntimeError(msg)
         # Special case(s)
         if key == "name":
+            if val is not None and not isinstance(val, str):
+                raise TypeError(f"Invalid name {val} for Bundle {self}: must be a string")
             return super().__setattr__(key, val)
         if key == "roles":
             if isinstance(val, EnumMeta):
@@ -309,7 +311,9 @@ def _assert_addable(bundle: Bundle, val: BundleAttr, name: str) -> None:
     """Raise a `RuntimeError` if `val` cannot be added to `bundle` as `name`.
     Called before `val` is modified in any way."""
 
-    if name in _reserved:
+    if name in _reserved or name.startswith("_"):
+        # Names with a leading underscore are plain Python attributes of the object, never HDL attributes:
+        # `x._a = val` files nothing, and attribute access does not look `_a` up in the namespace.
         msg = f"Invalid attribute name {name} for {val} in Bundle {bundle}"
         raise RuntimeError(msg)
     if bundle._elaborated:
